@@ -4,6 +4,7 @@ import Proofs.ProbingAuto
 import Proofs.ProbingP2
 import Proofs.ProbingAutoP2Run
 import Proofs.ProbingAutoInserts
+import Proofs.ProbingRunD
 /-!
 # C20 — Core lookup primitives behave as exact maps and arrays  (bit-packing clause)
 
@@ -447,6 +448,23 @@ theorem firstEmpty_diverges_iff (s : Slots) (N i : Nat) (hi : i < N) :
     firstEmpty s N N i = none ↔ ∀ x, x < N → s x ≠ none :=
   firstEmpty_diverges_iff' s N i hi
 
+/-- a table sized like `ProbingHashTable::Size(n, multiplier)` (`DivMod`: `max(n + 1, ⌊multiplier · n⌋)` buckets,
+for whatever value `f` the floating-point product takes) holds any `≤ n` distinct keys without exception -/
+theorem sized_table_holds (h : Nat → Nat) (n f : Nat) (kvs : List (Nat × Nat))
+    (hd : kvs.Pairwise (fun a b => a.1 ≠ b.1)) (hn : kvs.length ≤ n) :
+    ∃ t, runT h (emptyTable (max (n + 1) f)) (insertsOf kvs) = some (kvs.map (fun _ => Out.done), t) ∧
+      (∀ k v, (k, v) ∈ kvs → find h t k = some (some v)) ∧
+      (∀ k, (∀ v, (k, v) ∉ kvs) → find h t k = some none) :=
+  KV.Probing.sized_table_holds h n f kvs hd hn
+
+/-- **the probe loops stay inside the table**: their results do not depend on anything outside buckets
+`[0, N)`, and the bucket `UncheckedInsert` writes is one of them -/
+theorem probe_reads_in_range (s s' : Slots) (N k fuel i : Nat) (heq : ∀ x, x < N → s x = s' x) (hi : i < N) :
+    scan s N k fuel i = scan s' N k fuel i ∧ firstEmpty s N fuel i = firstEmpty s' N fuel i ∧
+    (∀ q, firstEmpty s N fuel i = some q → q < N ∧ s q = none) :=
+  ⟨scan_in_range s s' N k heq fuel i hi, firstEmpty_in_range s s' N heq fuel i hi,
+   fun q hq => firstEmpty_lt s N fuel i q hi hq⟩
+
 /-- **`Double` preserves the table**: all three loops terminate, the result satisfies the invariant
 for `2 N`, represents the same map (including every entry that had wrapped around the end),
 `entries_` and the number of occupied buckets are unchanged -/
@@ -454,6 +472,27 @@ theorem double_preserves (h : Nat → Nat) (t : Table) (M : Nat → Option Nat) 
     ∃ t', double h t = some t' ∧ Inv h t' ∧ Abs t' M ∧ t'.N = 2 * t.N ∧ t'.entries = t.entries ∧
       occ t'.s t'.N = occ t.s t.N :=
   double_preserves' h t M inv abs
+
+/-- **`Double` writes only buckets `[0, 2N)`** — the memory the caller handed over — and nothing beyond -/
+theorem double_frame (h : Nat → Nat) (t t' : Table) (hN : 0 < t.N) (hd : double h t = some t') :
+    ∀ x, 2 * t.N ≤ x → t'.s x = t.s x :=
+  KV.Probing.double_frame h t t' hN hd
+
+/-- **scripts that call `Double` explicitly** (any bucket count, `DivMod`): the table refines the map
+specification whose capacity doubles at each `Double` -/
+theorem run_with_double_refines_map (h : Nat → Nat) (ops : List OpD) (t : Table) (σ : Spec)
+    (outs : List (Option Out)) (σ' : Spec) (r : Ref h t σ) (hs : runSpecD σ ops = some (outs, σ')) :
+    ∃ t', runTD h t ops = some (outs, t') ∧ Ref h t' σ' :=
+  runD_refines h ops t σ outs σ' r hs
+
+/-- a 3-bucket table (not a power of two): two insertions, the third raises, `Double`, then it fits -/
+example :
+    let r := runTD id (emptyTable 3)
+      [.base (.insert 2 20), .base (.insert 5 50), .base (.insert 8 80), .double, .base (.insert 8 80), .base (.find 5)]
+    r.map (·.1) = some [some .done, some .done, some .full, none, some .done, some (.got (some 50))] ∧
+    r.map (fun r => (r.2.N, r.2.entries)) = some (6, 4) ∧
+    r.map (fun r => (List.range 6).map r.2.s) = some [none, none, some (2, 20), some (8, 80), none, some (5, 50)] := by
+  decide
 
 /-- **`AutoProbing` refines the plain map across any number of doublings**, for every threshold
 function with `θ N ≤ N - 1` and `N ≤ θ (2 N)`: no capacity exception, no divergence -/
